@@ -64,14 +64,17 @@ Record flags := mkFlags {
   fl_get : bool;       (* GetHeader succeeds *)
   fl_unfin : bool;     (* held in unfinalisedBlocks *)
   fl_trie : bool;      (* Tries has a trie for the block's state root *)
-  fl_db : bool }.      (* the header is in the database (HasHeaderInDatabase) *)
+  fl_db : bool;        (* the header is in the database (HasHeaderInDatabase) *)
+  fl_body : bool;      (* GetBlockBody succeeds *)
+  fl_block : bool }.   (* GetBlockByHash succeeds *)
 
 Record obs := mkObs {
   o_highest : outcome N;                  (* GetHighestFinalisedHash *)
   o_bynum : list (N * outcome N);         (* GetHashByNumber for the listed numbers *)
   o_flags : list (N * flags);             (* per block ever defined *)
   o_tries : N;                            (* Tries.len *)
-  o_dbnum : list (N * option N) }.        (* the database's number -> hash index, read directly *)
+  o_dbnum : list (N * option N);          (* the database's number -> hash index, read directly *)
+  o_blocknum : list (N * outcome N) }.    (* GetBlockByNumber (hash of the block answered) *)
 
 Definition observe (st : bstate) (blocks : list (N * N)) (nums : list N) : obs :=
   mkObs (highest_finalised_hash st)
@@ -81,10 +84,12 @@ Definition observe (st : bstate) (blocks : list (N * N)) (nums : list N) : obs :
                                 (match get_header st (fst b) with Some _ => true | None => false end)
                                 (match lookup (fst b) (bs_unfin st) with Some _ => true | None => false end)
                                 (mem (snd b) (bs_tries st))
-                                (match lookup (fst b) (bs_hdr st) with Some _ => true | None => false end)))
+                                (match lookup (fst b) (bs_hdr st) with Some _ => true | None => false end)
+                                (has_body st (fst b)) (get_block st (fst b))))
              blocks)
         (N.of_nat (length (bs_tries st)))
-        (map (fun n => (n, lookup n (bs_num st))) nums).
+        (map (fun n => (n, lookup n (bs_num st))) nums)
+        (map (fun n => (n, block_by_number st n)) nums).
 
 Definition outcome_n_eqb (a b : outcome N) : bool :=
   match a, b with
@@ -96,7 +101,8 @@ Definition outcome_n_eqb (a b : outcome N) : bool :=
   end.
 Definition flags_eqb (a b : flags) : bool :=
   eqb (fl_has a) (fl_has b) && eqb (fl_get a) (fl_get b) && eqb (fl_unfin a) (fl_unfin b)
-  && eqb (fl_trie a) (fl_trie b) && eqb (fl_db a) (fl_db b).
+  && eqb (fl_trie a) (fl_trie b) && eqb (fl_db a) (fl_db b)
+  && eqb (fl_body a) (fl_body b) && eqb (fl_block a) (fl_block b).
 Definition option_n_eqb (a b : option N) : bool :=
   match a, b with
   | Some x, Some y => x =? y
@@ -114,7 +120,8 @@ Definition obs_eqb (a b : obs) : bool :=
   && list_eqb (fun p q => (fst p =? fst q) && outcome_n_eqb (snd p) (snd q)) (o_bynum a) (o_bynum b)
   && list_eqb (fun p q => (fst p =? fst q) && flags_eqb (snd p) (snd q)) (o_flags a) (o_flags b)
   && (o_tries a =? o_tries b)
-  && list_eqb (fun p q => (fst p =? fst q) && option_n_eqb (snd p) (snd q)) (o_dbnum a) (o_dbnum b).
+  && list_eqb (fun p q => (fst p =? fst q) && option_n_eqb (snd p) (snd q)) (o_dbnum a) (o_dbnum b)
+  && list_eqb (fun p q => (fst p =? fst q) && outcome_n_eqb (snd p) (snd q)) (o_blocknum a) (o_blocknum b).
 
 (* ------------------------------------------------------------------ the property predicates *)
 
@@ -140,6 +147,11 @@ Definition check_by_number (f' : fstate) (after : obs) : bool :=
   && forallb (fun c => match lookup (fst c) (o_dbnum after) with
                        | Some r => option_n_eqb r (Some (snd c))
                        | None => true
+                       end) (f_chain f')
+  (* the whole block (header and body) is retrieved by number *)
+  && forallb (fun c => match lookup (fst c) (o_blocknum after) with
+                       | Some r => outcome_n_eqb r (Ok (snd c))
+                       | None => true
                        end) (f_chain f').
 
 (* 3. no leftovers: a block that is neither on the finalised chain nor held any more is gone:
@@ -160,6 +172,7 @@ Definition check_no_leftovers (f' : fstate) (after : obs) : bool :=
              let h := fst p in let fl := snd p in
              if f_abandoned f' h then
                negb (fl_has fl) && negb (fl_get fl) && negb (fl_unfin fl)
+               && negb (fl_body fl) && negb (fl_block fl)
                && (negb (fl_trie fl)
                    || match lookup h (f_all f') with
                       | Some i => root_shared_with_kept f' (hi_root i)
